@@ -4,6 +4,7 @@ go 1.23
 
 require (
 	github.com/kjx98/crc16 v0.0.0-20190915014410-d407ba22e1b5
+	github.com/nats-io/nats-server/v2 v2.10.4
 	github.com/nats-io/nats.go v1.31.0
 	github.com/simpleiot/simpleiot v0.0.0
 	google.golang.org/protobuf v1.27.1
@@ -39,7 +40,6 @@ require (
 	github.com/miekg/dns v1.1.55 // indirect
 	github.com/minio/highwayhash v1.0.2 // indirect
 	github.com/nats-io/jwt/v2 v2.5.2 // indirect
-	github.com/nats-io/nats-server/v2 v2.10.4 // indirect
 	github.com/nats-io/nkeys v0.4.6 // indirect
 	github.com/nats-io/nuid v1.0.1 // indirect
 	github.com/oklog/run v1.1.0 // indirect
